@@ -15,7 +15,7 @@ func H_C10_Recovery() {
 	// os.RemoveAll (used by the recovery to clear the WAL directory) removes entries in the order the file
 	// system lists them, which is not specified: both directions are explored (natively: a tmpfs directory
 	// lists newest first, the default temporary directory usually does not)
-	kind := vrt.Choose("image", 4)
+	kind := vrt.Choose("image", 5)
 	listing := 0
 	if kind == 3 || vrt.Thorough() {
 		// (quick tier: only for the image with two WAL files, where the order is known to matter)
@@ -59,15 +59,32 @@ func H_C10_Recovery() {
 		} else {
 			s.del(key)
 		}
-	case 1, 2:
+	case 1, 2, 4:
 		// a finished, flagged compaction that was not (or only partly) reflected
-		if kind == 1 {
+		switch kind {
+		case 1:
 			vrt.Tag("image-compaction-flagged")
-		} else {
+		case 2:
 			vrt.Tag("image-compaction-half-reflected")
+		case 4:
+			// ... whose oldest input is itself the result of an earlier, completed compaction (it still carries
+			// that compaction's success flag inside its folder)
+			vrt.Tag("image-second-compaction-flagged")
+			s.put(key)
+			h.forceRotation()
+			s.put(key)
+			h.forceRotation()
+			h.db.compactedMaxSizeBytes = math.MaxUint64
+			h.db.compactionFileThreshold = 1
+			h.runPendingNative()
+			h.compactionCycle()
+			vrt.Assert(h.cycles == 1, "recovery/first-compaction-for-the-image-ran")
 		}
 		nT := 2
-		if vrt.Thorough() {
+		if kind == 4 {
+			nT = 1
+		}
+		if vrt.Thorough() && kind != 4 {
 			nT = vrt.Range("tables", 2, 3)
 		}
 		for t := 0; t < nT; t++ {
